@@ -83,6 +83,13 @@ Proof.
 Qed.
 Print Assumptions C02_huge_int_keys.
 
+(* infinities (fix c3b94bc in /repo): -inf < every finite number < +inf < NaN; an infinity is equal only to the infinity of its sign *)
+Theorem C02_inf_keys f x i :
+  tcmp [CInf true] [CNum f x] = -1 /\ tcmp [CNum f x] [CInf false] = -1 /\ tcmp [CInf false] [CNaN i] = -1 /\
+  tcmp [CInf true] [CInf false] = -1 /\ tcmp [CInf true] [CInf true] = 0 /\ tcmp [CInf false] [CInf false] = 0.
+Proof. unfold tcmp, cmparr, ccmp, zcmp; simpl. auto 10. Qed.
+Print Assumptions C02_inf_keys.
+
 (* table level, repaired code (every spelling of lcols / rcols, every mode): with >= 1 key column the
    result is Ok, its rows are out_row of a permutation of the relational pairs; with none, the cross product *)
 Theorem C02_join_table_is_relational x y lc rc m cols lcs rcs :
